@@ -83,6 +83,7 @@ inductive BodyItem where
   | webTrailer (block : Header)                                     -- gRPC-Web trailer envelope (flag 0x80)
   | raw (data : Bytes)                                              -- unary Connect body (as on the wire)
   | errorJSON (err : WireErr)                                       -- unary Connect error body
+  | errorJSONz (err : WireErr)                                      -- the same, compressed with the response's Content-Encoding (peers may do that)
   deriving DecidableEq, Repr
 
 structure Resp where
@@ -253,6 +254,7 @@ def recvItems (cfg : CCfg) (enc : Option Compressor) : List BodyItem → List By
     if cfg.proto = .grpcWeb then ([], .webTrailer (sanitizeBlock b)) else ([], .fail codeInternal)   -- textproto trims values
   | .raw _ :: _ => ([], .fail codeInternal)
   | .errorJSON _ :: _ => ([], .fail codeInternal)
+  | .errorJSONz _ :: _ => ([], .fail codeInternal)
 
 def encodingPool (cfg : CCfg) (name : Bytes) : Option Compressor :=
   if name = [] ∨ name = Gen.compressionIdentity then none
@@ -306,6 +308,16 @@ def clientConnectUnary (cfg : CCfg) (statusText : Bytes) (r : Resp) : ClientObs 
         result := some { code := fixCode w.code (connectHTTPToCode r.status), msg := w.msg, details := w.details,
                          md := mergeHeaders (mergeHeaders [] header) trailer },
         header := header, trailer := trailer }
+    | [.errorJSONz w] =>
+      -- the body is decompressed with the pool named by Content-Encoding before it is parsed
+      if (encodingPool cfg encName).isSome then
+        { msgs := [],
+          result := some { code := fixCode w.code (connectHTTPToCode r.status), msg := w.msg, details := w.details,
+                           md := mergeHeaders (mergeHeaders [] header) trailer },
+          header := header, trailer := trailer }
+      else
+        { msgs := [], result := some { code := connectHTTPToCode r.status, msg := statusText, details := [], md := [] },
+          header := header, trailer := trailer }
     | _ =>
       { msgs := [], result := some { code := connectHTTPToCode r.status, msg := statusText, details := [], md := [] },
         header := header, trailer := trailer }
